@@ -328,7 +328,7 @@ def run(chk: Check) -> int:
                     steps, orc = drive(n, "list", None, None, concrete=ops)
                     add(n, "list", steps, orc, "exhaustive")
                     exhaustive += 1
-    mism, legal, errors = chk.coq_cases("cases", PREAMBLE, "case", cases, "check", "is_legal")
+    mism, legal, errors = chk.coq_cases("cases", PREAMBLE, "case", cases, "check", "is_legal", shard=200 if chk.quick else 60)
     for e in errors:
         chk.broke("correspondence", "Model/Seq.v cases could not be evaluated", e)
     for c, s in mism[:5]:
